@@ -97,7 +97,7 @@ def generation_jobs(ctx, q):
 
 def _run(ctx, q, rng, env):
     # 0. the table's own sanity invariants are not vacuous
-    L.nonvacuity(ctx, ["swap_buf"] if q else L.DEVIATIONS_CASES)
+    L.nonvacuity(ctx, ["swap_buf", "double_blank_ends_toml_dest"] if q else L.DEVIATIONS_CASES + ["double_blank_ends_toml_dest"])
 
     # 1. TLC enumerates single entries and lists of entries with the expected entries, and texts with
     #    the expected interpolation (independent runs, side by side)
@@ -244,6 +244,9 @@ def _run(ctx, q, rng, env):
     cov["cases"] = len(lists)
     cov["cases_with_several_entries"] = len(multi)
     cov["texts"] = len(texts)
+    cov["toml_destination_string_layouts"] = dict(sorted(L.LAYOUT_USED.items()))      # sections with destination options, per layout
+    if not ctx.violations and any(L.LAYOUT_USED.get(k, 0) < 5 for k in L.DEST_LAYOUTS):
+        raise Machinery("too few [[route]] sections with destination options per layout: %s" % L.LAYOUT_USED)
     cov["rule"] = ("a case = a list of 1..3 entries of one section kind; an entry = entry kind x variant x set of options with "
                    "values pairwise distinct over (option, scope, position) and different from every default.  Single "
                    "entries: all singletons and pairs enumerated by TLC, larger subsets seeded random.  Lists: every "
